@@ -183,13 +183,13 @@ def op_for_member(kind, k, name, args):
 
 @st.composite
 def st_hierarchy(draw, ids, n_classes=(1, 3), kinds=tuple(MEMBER_KINDS), dag=False, with_invs=False,
-                 with_init=True, async_ok=True, deco_kw=None, inv_err_forms=("default",), root_modes=("DBC", "meta")):
+                 with_init=True, with_new=False, async_ok=True, deco_kw=None, inv_err_forms=("default",), root_modes=("DBC", "meta")):
     """Classes over DBC sharing one member name (and optionally __init__), with drawn overrides."""
     deco_kw = dict(deco_kw or {})
     n = draw(st.integers(*n_classes))
     kind = draw(st.sampled_from(list(kinds)))
-    is_async = async_ok and kind in ("method", "static", "class") and draw(st.integers(0, 2)) == 0
-    mname = draw(st.sampled_from(["m", "do", "__call__"])) if kind == "method" else "p" if kind in (
+    is_async = async_ok and kind in ("method", "static", "class") and draw(st.integers(0, 1)) == 0
+    mname = draw(st.sampled_from(["m", "do", "__getitem__"])) if kind == "method" else "p" if kind in (
         "getter", "setter", "deleter") else "m"
     classes = []
     for ci in range(n):
@@ -203,10 +203,10 @@ def st_hierarchy(draw, ids, n_classes=(1, 3), kinds=tuple(MEMBER_KINDS), dag=Fal
             bases = [draw(st.integers(0, ci - 1))] if dag else [ci - 1]
         c = {"name": "K%d" % ci, "bases": bases, "root": draw(st.sampled_from(list(root_modes))), "shape": "plain",
              "invs": [], "members": []}
-        how = "define" if ci == 0 else draw(st.sampled_from(["define", "define", "skip"]))
+        how = "define" if ci == 0 else draw(st.sampled_from(["define", "define", "define", "skip"]))
         if how == "define":
             fk = dict(deco_kw)
-            if ci > 0 and draw(st.booleans()):
+            if ci > 0 and draw(st.integers(0, 2)) == 0:
                 fk["n_pre"] = (0, 0)  # redefinition without own preconditions
             members = []
             if kind in ("getter", "setter", "deleter"):
@@ -225,6 +225,20 @@ def st_hierarchy(draw, ids, n_classes=(1, 3), kinds=tuple(MEMBER_KINDS), dag=Fal
             fi = draw(st_func(ids, "__init__", "init", False, **ik))
             fi["super"] = draw(st.sampled_from(["absent", "first", "last"])) if ci > 0 else "absent"
             c["members"].append(fi)
+        if with_new and draw(st.integers(0, 3)) == 0:
+            nk = dict(deco_kw)
+            nk["n_snap"] = (0, 1)
+            nk["raise_ok"] = False
+            fn = draw(st_func(ids, "__new__", "new", False, **nk))
+            fn["body"] = {"ret": "None"}
+            c["members"].append(fn)
+            if not any(m["kind"] == "init" for m in c["members"]):
+                # a class with its own __new__ also gets an __init__ here: without one, icontract wraps __new__
+                # itself and a super().__new__ chain checks invariants inside the nested __new__ (finding D19,
+                # explored by C03's directed scenarios, excluded from the generic programs)
+                c["members"].append({"name": "__init__", "kind": "init", "async": False, "params": ["x", "y"],
+                                     "defaults": {"x": "None", "y": "None"}, "decos": [], "body": {"ret": "None"},
+                                     "super": "absent"})
         if with_invs:
             for _ in range(draw(st.integers(0, 2))):
                 inv = {"cid": ids.cid(), "on": draw(st.sampled_from(["CALL", "CALL", "SETATTR", "ALL"])),
